@@ -55,6 +55,24 @@ class Loader(yaml.SafeLoader):
         # ids of the nodes currently being processed, to detect cycles
         self.__in_progress = set()      # type: Set[int]
 
+    def scan_flow_scalar_non_spaces(
+            self, double: bool, start_mark: yaml.error.Mark) -> List[str]:
+        """Scans part of a quoted scalar, called by PyYAML.
+
+        PyYAML converts \\U escape sequences using chr(), which raises
+        ValueError or OverflowError for numbers that are not code
+        points. We report those as a scanner error, like any other
+        invalid escape sequence.
+        """
+        try:
+            return cast(List[str], super().scan_flow_scalar_non_spaces(
+                double, start_mark))
+        except (ValueError, OverflowError):
+            raise yaml.scanner.ScannerError(
+                    'while scanning a double-quoted scalar', start_mark,
+                    'found an escape sequence that is not a valid Unicode'
+                    ' character', self.get_mark())
+
     def get_single_node(self) -> yaml.Node:
         """Hook used when loading a single document.
 
